@@ -38,8 +38,10 @@ func (c *conformance) enrich(kind string, ev event, kv []any) {
 			c.wfOf[run] = wf
 			c.mu.Unlock()
 		}
-	case "HEnter":
-		if ev["h"] != "S" || ev["out"] == nil || ev["prev"] == nil {
+	case "HEnter", "Stored":
+		// HEnter: the value as the step hands it to the run loop; Stored: the value as the run loop makes it
+		// available to expressions (the one C08 speaks about)
+		if (kind == "HEnter" && ev["h"] != "S") || ev["out"] == nil || ev["prev"] == nil {
 			return
 		}
 		run, _ := ev["run"].(string)
@@ -69,7 +71,11 @@ func (c *conformance) enrich(kind string, ev event, kv []any) {
 				return
 			}
 		}
-		p, _ := kvGet(kv, "data").(*any)
+		raw := kvGet(kv, "data")
+		p, isPtr := raw.(*any)
+		if !isPtr {
+			p = &raw
+		}
 		if p == nil {
 			return
 		}
